@@ -82,6 +82,8 @@ class Run:
         self.spelled_root = spelled
         self.g = gated.GatedObserver(spelled, recursive=recursive, full=full, path_kind=path_kind,
                                      event_filter=event_filter, drop_noise=drop_noise)
+        for pth, _ in self.init_fs:
+            self._register(pth)
         self.mirror = []         # (object, put clock units, delayed)
         self.log = []            # executed actions with observations: dicts
         self.skipped = 0
@@ -89,6 +91,14 @@ class Run:
         self.g.start()
         self.g.read()            # initial directory-scan noise
         self.started_noise = self.g.noise
+
+    def _register(self, p):
+        try:
+            ino = os.lstat(p).st_ino
+        except OSError:
+            return
+        self.g.ino_order.setdefault(ino, len(self.g.ino_order))
+        self.g.ino_order[ino] = len(self.g.ino_order) if False else self.g.ino_order[ino]
 
     # ---- paths
     def real(self, path):
@@ -104,6 +114,10 @@ class Run:
                 for f in fs:
                     out.append((os.fsencode(os.path.join(r, f)), False))
         return out
+
+    def _next_order(self):
+        self._order = getattr(self, "_order", 10 ** 6) + 1
+        return self._order
 
     def units(self):
         return int(round((self.g.vclock.now - 1000.0) / self.g.UNIT))
@@ -182,6 +196,12 @@ class Run:
             else:
                 raise ValueError(kind)
             ok = True
+            if kind in ("touch", "mkdir"):
+                # a new entry: a recycled inode number must not keep the creation index of a dead entry
+                try:
+                    self.g.ino_order[os.lstat(p).st_ino] = self._next_order()
+                except OSError:
+                    pass
         except OSError:
             ok = False
             self.skipped += 1
